@@ -165,4 +165,22 @@ theorem pool_fields_locked : declared.all (fun d =>
 theorem queue_fields_locked : declared.all (fun d =>
     !(d.1.obj == "resultq") || d.1.locks.contains "rq" || d.2 == .setup || d.2 == .teardown) = true := by decide
 
+/-! ### the reader is immutable after open; iterators own their state (mtbl/reader.c, mtbl/block.c)
+
+  `Mtbl.Generated.readerWrites` lists every assignment to a field of struct mtbl_reader / reader_iter / block /
+  block_iter in the two files.  A field of the reader or of a decoded block (the shared index block among them) is
+  assigned only by the constructors; everything an iterator operation assigns belongs to the iterator itself (a
+  `reader_iter` or a `block_iter`, each owned by exactly one iterator).  So threads that work on one open reader through
+  their own iterators write disjoint objects and only read the reader. -/
+def readerCtors : List String := ["mtbl_reader_init_fd", "mtbl_reader_destroy", "block_init", "block_destroy"]
+
+theorem reader_immutable : readerWrites.all (fun s =>
+    s.obj == "reader_iter" || s.obj == "block_iter" || readerCtors.contains s.fn) = true := by decide
+
+/-- the table is not empty and does contain iterator-state writes in the iterator operations (non-vacuity) -/
+theorem reader_sites_nontrivial :
+    readerWrites.any (fun s => s.fn == "reader_iter_next" && s.obj == "reader_iter") = true ∧
+    readerWrites.any (fun s => s.fn == "mtbl_reader_init_fd" && s.obj == "mtbl_reader") = true ∧
+    readerWrites.any (fun s => s.fn == "parse_next_key" && s.obj == "block_iter") = true := by decide
+
 end Tp.C14
